@@ -29,7 +29,8 @@ import subprocess
 from .. import core
 from ..gen import rng_for
 
-EXTRA_PROP_MODULES = [("KB.Props.C20Metrics", "KB.C20Metrics"), ("KB.Props.C20Requests", "KB.C20Requests")]
+EXTRA_PROP_MODULES = [("KB.Props.C20Metrics", "KB.C20Metrics"), ("KB.Props.C20Requests", "KB.C20Requests"),
+                      ("KB.Props.C20Native", "KB.C20Native")]
 
 TABLE = os.path.join(core.LEAN, "KB", "Generated", "MetricSites.lean")
 SITE_RE = re.compile(
@@ -445,4 +446,8 @@ def check(rep, tier, seed):
     tbl = parse_table()
     if check_burst(rep, tier, tbl["globals"][0] if tbl["globals"] else []):
         return True
-    return check_requests(rep, tier, seed)
+    if check_requests(rep, tier, seed):
+        return True
+    # native handler glue (pkg/server/brain read.go / write.go): KB.Props.C20Native + differential suite `native`
+    from .. import native
+    return native.check(rep, tier, seed, "C20")
